@@ -448,7 +448,7 @@ def generate(rng, tier):
 
 def _bad(o):
     if isinstance(o, list):
-        if o and isinstance(o[0], bytes) and o[0] in (b'PANIC', b'CRASH', b'HARNESS-PARSE-ERROR', b'UNEXPECTED-TEXT'):
+        if o and isinstance(o[0], bytes) and o[0] in (b'PANIC', b'CRASH', b'HARNESS-PARSE-ERROR', b'UNEXPECTED-TEXT', b'HARNESS-NO-CACHE-MODULE'):
             return sexp.dumps(o)[:200]
         for x in o:
             r = _bad(x)
